@@ -2,9 +2,9 @@
 //!
 //! * `mode = "dfs"`: enumerate ALL interleavings of a small multi-threaded program over the real
 //!   `beans.rs` source (shim copy: every atomic / map operation is a scheduling point). The factory
-//!   lives in a function-local `static`, so every execution runs in its own child process
-//!   (`mode = "exec"` with the schedule prefix); this process only drives the depth-first search
-//!   and collects the set of outcomes.
+//!   lives in a function-local `static`: a program that races for its creation ("cold") runs every
+//!   execution in a forked child; a program with a sequential prefix ("warm") runs them all here
+//!   with fresh bean names. This process drives the depth-first search and collects the outcomes.
 //! * `mode = "exec"`: one execution under a schedule prefix; prints the decisions made and the outcome.
 //! * `mode = "barrier"`: no shim; `k` real threads released by a barrier ask the crate's own
 //!   `BeanFactory` for one fresh name whose `Default` is slow (process-global state: isolated case).
@@ -24,8 +24,12 @@ struct Bean {
     _pad: u64,
 }
 
+/// Per-execution suffix of the bean names: executions that share a process (warm programs: the
+/// factory already exists) must not see each other's beans.
+static NAME_SUFFIX: std::sync::atomic::AtomicU64 = std::sync::atomic::AtomicU64::new(0);
+
 fn bean_name(n: u64) -> String {
-    format!("bean-{n}")
+    format!("bean-{n}-{}", NAME_SUFFIX.load(std::sync::atomic::Ordering::Relaxed))
 }
 
 /// One call of a program on the (shimmed) factory: address, `null` (no instance) or "unit".
@@ -183,15 +187,46 @@ fn exec_child(case: &Value, prefix: &[usize]) -> Option<(Vec<(usize, usize)>, Va
     Some((trace, obs.get(1)?.clone()))
 }
 
+/// One execution of a warm program in this process: the factory exists (the sequential prefix
+/// of the first execution created it), the bean names are fresh.
+fn exec_here(case: &Value, prefix: &[usize], nth: u64) -> Option<(Vec<(usize, usize)>, Value)> {
+    NAME_SUFFIX.store(nth, std::sync::atomic::Ordering::Relaxed);
+    let mut c = case.clone();
+    c["prefix"] = json!(prefix);
+    let obs = exec(&c);
+    let trace: Vec<(usize, usize)> = obs.first()?["trace"]
+        .as_array()?
+        .iter()
+        .map(|p| {
+            (
+                usize::try_from(as_u64(&p[0])).expect("nalt"),
+                usize::try_from(as_u64(&p[1])).expect("alt"),
+            )
+        })
+        .collect();
+    Some((trace, obs.get(1)?.clone()))
+}
+
 fn dfs(case: &Value) -> Vec<Value> {
     let max_execs = usize::try_from(as_u64(&case["max_execs"])).expect("max_execs");
+    let budget = std::time::Duration::from_millis(case.get("budget_ms").map_or(60_000, as_u64));
+    let started = std::time::Instant::now();
+    // a cold program races for the creation of the factory itself, which lives in a static of
+    // this process: it needs a fresh process per execution. A warm one (sequential prefix first)
+    // only needs fresh bean names.
+    let warm = case["seq0"].as_bool().unwrap_or(false);
     let mut outcomes: BTreeSet<String> = BTreeSet::new();
     let mut prefix: Vec<usize> = Vec::new();
     let mut count = 0usize;
     let mut complete = false;
     let mut lost = false;
     loop {
-        let Some((trace, outcome)) = exec_child(case, &prefix) else {
+        let r = if warm {
+            exec_here(case, &prefix, count as u64 + 1)
+        } else {
+            exec_child(case, &prefix)
+        };
+        let Some((trace, outcome)) = r else {
             lost = true;
             break;
         };
@@ -209,7 +244,8 @@ fn dfs(case: &Value) -> Vec<Value> {
             }
         }
         match next {
-            Some(p) if count < max_execs => prefix = p,
+            // out of executions or out of time (a loaded machine): report what was seen so far
+            Some(p) if count < max_execs && started.elapsed() < budget => prefix = p,
             Some(_) => break,
             None => {
                 complete = true;
